@@ -207,7 +207,11 @@ func seeds() [][]op {
 	s := [][]op{nil, {{"rotate", 0}, {"rotate", 0}}, {{"rotate", 0}, {"rotate", 0}, {"win", 3}},
 		// an archive that has ALREADY been trimmed once (its first entry is no longer version 0/1):
 		// the starting point for a second trim and for moving keys back out of the archive
-		{{"rotate", 0}, {"rotate", 0}, {"rotate", 0}, {"dec", 2}, {"trim", 2}, {"win", 3}}}
+		{{"rotate", 0}, {"rotate", 0}, {"rotate", 0}, {"dec", 2}, {"trim", 2}, {"win", 3}},
+		// a rotated key restored from a backup over a key that was deleted and created anew
+		// (the archive in storage belongs to the new key, not to the restored one): the
+		// starting point for moving versions into the archive and back out
+		{{"rotate", 0}, {"backup", 0}, {"allowdel", 0}, {"recreate", 0}, {"restore", 0}}}
 	if vout.Thorough() {
 		s = append(s, []op{{"rotate", 0}, {"rotate", 0}, {"rotate", 0}, {"win", 3}, {"trim", 2}, {"backup", 0}})
 	}
@@ -825,6 +829,56 @@ func (w *world) generate() {
 			}
 		}
 	}
+	// batch encryption: the items of one request are independent. Every ordered
+	// sequence of two or three items over the associated-data choices (one context,
+	// one plaintext) is encrypted in ONE request; each ciphertext becomes a record
+	// like any other, so the battery decrypts it under matching and mismatching inputs.
+	if c.enc() && len(c.aads()) > 1 {
+		cx := c.ctxs()[0]
+		aads := c.aads()
+		var seqs [][]int
+		for _, a := range aads {
+			for _, b := range aads {
+				seqs = append(seqs, []int{a, b})
+				for _, d := range aads {
+					seqs = append(seqs, []int{a, b, d})
+				}
+			}
+		}
+		for _, sq := range seqs {
+			var items []interface{}
+			for _, ai := range sq {
+				it := map[string]interface{}{"plaintext": ptVals[2]}
+				if cx != 0 {
+					it["context"] = ctxVals[cx]
+				}
+				if ai != 0 {
+					it["associated_data"] = aadVals[ai]
+				}
+				items = append(items, it)
+			}
+			d, fail := w.do(logical.UpdateOperation, "encrypt/k", map[string]interface{}{"batch_input": items})
+			rs := batchResults(d)
+			if fail != "" || len(rs) != len(sq) {
+				w.stat["evaluations"]++
+				w.bad("encrypt:batch-refused", "batch encryption of %d valid items with associated data %v failed or returned %d results (%s)", len(sq), sq, len(rs), fail)
+				continue
+			}
+			w.count("encrypt_batches")
+			for i, ai := range sq {
+				ct, _ := rs[i]["ciphertext"].(string)
+				e, _ := rs[i]["error"].(string)
+				ver, ok := w.judgeVersion("encrypt", 0, e, ct, rs[i]["key_version"])
+				if !ok {
+					continue
+				}
+				// Par=1 marks a ciphertext that came out of a batch: it gets the input-binding
+				// part of the battery, not the full ciphertext-mutation sweep (its single-request
+				// twin with the same inputs already gets that)
+				w.recs = append(w.recs, &rec{'e', ver, w.m.Keys[ver], cx, ai, 2, 1, ct, w.state})
+			}
+		}
+	}
 	// inputs that can never be encrypted
 	if c.enc() && c.Derived {
 		w.stat["evaluations"]++
@@ -1254,7 +1308,7 @@ func (w *world) battery(full bool) {
 		cur := r.Born == w.state
 		switch r.Kind {
 		case 'e':
-			w.batteryEnc(r, full, cur)
+			w.batteryEnc(r, full && r.Par == 0, cur)
 		default:
 			w.batterySig(r, full, cur)
 		}
